@@ -189,7 +189,7 @@ class MarkovCheck(object):
             return annot
 
         def key(annot, d, i):
-            return annot.get(d.decisions[i]['info']['logpos'], ('unannotated', i, nruns[0]))
+            return annot.get(d.decisions[i]['info']['logpos'], ('unannotated',))
 
         try:
             for script, d, out in rngprobe.explore(run, key, max_runs=200000, expo_value=0.25):
